@@ -528,6 +528,15 @@ class Exec:
             else:
                 n = If(hi < lo, (lo - hi + (-k) - 1) / (-k), 0)
             return SV('range', None, lo=lo, n=n, step=k)
+        if fname == 'zip' and len(args) >= 2:
+            try:
+                seqs = [self.iterate(st, a) for a in args]
+            except OutOfSubset:
+                return NotImplemented
+            self.use('axiom:zip of equally long sequences yields the tuples of their j-th elements')
+            for n_i, _ in seqs[1:]:
+                self.oblige(st, 'zip.equal_lengths', n_i == seqs[0][0], kind='pre')
+            return SV('lazylist', None, n=seqs[0][0], at=lambda st2, j: T([at_i(st2, j) for _, at_i in seqs]))
         if fname == 'len' and len(args) == 1 and args[0].kind in ('range', 'lazylist'):
             return I(args[0].n)
         if fname == 'len' and len(args) == 1 and args[0].kind == 'tuple':
